@@ -107,7 +107,7 @@ func rootState(l *lexer) stateFn {
 		l.emit(LeftAngleBracket)
 	case r == '>':
 		l.emit(RightAngleBracket)
-	case unicode.IsDigit(r):
+	case r >= '0' && r <= '9': // ASCII digits only: acceptRun below consumes nothing else
 		l.backup()
 		l.acceptRun("0123456789")
 		l.emit(Number)
